@@ -23,9 +23,12 @@ for name, m in rows_seed:
         for k in m["checks"][p]["keys"][:1]:
             keys.append(re.sub(r"^key=", "", k).split(" count=")[0][:90])
     out.append("| %s | %s | %s | %s | %s |" % (name, str(NEEDS.get(name) or m.get("needs_to_manifest", ""))[:170], "yes" if m.get("compiles_and_suite_passes") else "NO",
-               ", ".join(m.get("detected_by", [])) or "**MISSED**", "; ".join(keys)[:200].replace("|", "/")))
+               ", ".join(m.get("detected_by", [])) or ("**MISSED**" if m.get("status") in (None, "MISSED") else m.get("status")),
+               ("; ".join(keys)[:200] or str(m.get("explanation", ""))[:200]).replace("|", "/")))
 nd = sum(1 for _, m in rows_seed if m.get("detected_by"))
-out.append("\n%d of %d seeded defects are detected by the quick tier of at least one check.\n" % (nd, len(rows_seed)))
+no = sum(1 for _, m in rows_seed if not m.get("detected_by") and m.get("status") not in (None, "MISSED"))
+out.append("\n%d of %d seeded defects are detected by the quick tier of at least one check; %d are judged to leave the property intact "
+           "(see their meta.json).\n" % (nd, len(rows_seed), no))
 out.append("### Re-introduced repaired defects (reverse patch of each `fix:` commit on a scratch worktree)\n")
 out.append("| commit | defect | suite passes with defect | status | detected by |\n|---|---|---|---|---|")
 for name, m in rows_rev:
